@@ -32,7 +32,7 @@ def judge(ctx, items, res, driver, case):
     E = rv32.eligible_words()
     elig = 0
     for idx, it in enumerate(items):
-        if it['k'] not in ('inst', 'li', 'call', 'tail') or not label_free(it):
+        if it['k'] not in ('inst', 'li', 'call', 'tail', 'pseudo') or not label_free(it):
             continue
         for (cur, size, kind, mn, f) in wc.places[idx][2]:
             if kind != '32':
@@ -98,6 +98,13 @@ def pseudo_literals(tier):
         out.append(progs.I('jalr', 'jalr x%d' % rd, rd=1, rs1=rd, imm=0))
     out.append(progs.I('jalr', 'ret', rd=0, rs1=1, imm=0))
     out.append(progs.I('addi', 'nop', rd=0, rs1=0, imm=0))
+    # transfers with a NUMERIC (literal, pc-relative) offset: near forms, and far call / tail whose second instruction is jalr rd, 0(rs) when the low part is zero
+    for off in (0, 2, 4, -2, 254, 256, -256, -258, 2046, 2048, -2048, -2050, 0xffffe, -0x100000, 0x100000, 0x200000, -0x200000, 0x7ffff000, 0x100004, 0x1007fc, 0x100800):
+        for name in ('call', 'tail') + (('j', 'jal') if -0x100000 <= off < 0x100000 else ()):
+            out.append(L.pseudo(name, off))
+        if -4096 <= off < 4096:
+            for name in ('beqz', 'bnez', 'bgez'):
+                out.append(L.pseudo(name, 8, off))
     return out
 
 
